@@ -261,6 +261,13 @@ def handle (op : String) (args : List String) : Option String := do
   | "c16.prim.sphere" => do primLine "sphere" (← floats? args)
   | "c16.prim.rect" => do primLine "rect" (← floats? args)
   | "c16.prim.tri" => do primLine "tri" (← floats? args)
+  | "c16.mesh.hit" => do
+      let (t, rest) ← parseTree args
+      match t, rest with
+      | some t, [ox, oy, oz, dx, dy, dz, time, mn, mx] =>
+        let ray : PolyVerif.Gen.rendering.TemporalRay Float := ⟨⟨ox, oy, oz⟩, ⟨dx, dy, dz⟩, time⟩
+        pure (distStr (PolyVerif.RPrims.meshHit t ray mn mx) ++ " " ++ distStr (PolyVerif.RPrims.meshHit2 t ray mn mx))
+      | _, _ => none
   | "c16.holds.prim_in_box" => do
       let fs ← floats? (args.drop 1)
       match fs with
